@@ -394,7 +394,8 @@ structure GUID where
   E : UInt64
   deriving Repr, DecidableEq, Inhabited
 
-/-- `(*GUID).FromRawBytes`: index expressions `data[0]..data[15]`, no length check, no error result -/
+/-- `(*GUID).FromRawBytes`: index expressions `data[0]..data[15]`; no error result: on fewer than 16 bytes
+    the receiver becomes the nil GUID (after `fixes/C07-guid-fromrawbytes-short.diff`) -/
 def fromRawBytes (data : Bytes) : Outcome GUID :=
   match data with
   | b0 :: b1 :: b2 :: b3 :: b4 :: b5 :: b6 :: b7 :: b8 :: b9 :: b10 :: b11 :: b12 :: b13 :: b14 :: b15 :: _ =>
@@ -404,7 +405,7 @@ def fromRawBytes (data : Bytes) : Outcome GUID :=
           D := (b8.toUInt16 <<< 8) ||| b9.toUInt16
           E := (b10.toUInt64 <<< 40) ||| (b11.toUInt64 <<< 32) ||| (b12.toUInt64 <<< 24) |||
                (b13.toUInt64 <<< 16) ||| (b14.toUInt64 <<< 8) ||| b15.toUInt64 }
-  | _ => .panic
+  | _ => .ok ⟨0, 0, 0, 0, 0⟩
 
 /-- `(*GUID).ToBytes` (the loop `eBytes[5-i] = byte((E >> (i*8)) & 0xff)`, i = 0..5, unrolled) -/
 def toBytes (g : GUID) : Bytes :=
